@@ -1,7 +1,7 @@
 (* C02 (and, through Corr/C14.v, C14) correspondence: universes with the
    results the REAL PkgResolver.GetPackagesWithDependencies returned, compared
    with Model/Resolver.v and judged by the validators of Spec/ResolveSpec.v. *)
-From Apko Require Export Base.Prelude Model.Version Model.Resolver Spec.ResolveSpec.
+From Apko Require Export Base.Prelude Model.Version Model.Resolver Spec.ResolveSpec Spec.ResolveMultiSpec.
 Open Scope string_scope. Open Scope list_scope.
 
 (* one call of GetPackagesWithDependencies *)
@@ -48,6 +48,25 @@ Definition validate_run (R : resolver) (world : list string) (obs : option (list
       List.map (String.append pre) (nodup string_dec tags)
   end.
 
+(* session 6: the same, plus (1) the wider envelope of c02_closed_multi_version — there, too, ANY failure of the
+   closure validator on the implementation's list is a VIOLATION (tag prefix in-multi-envelope/), and so is a member
+   that is not the winner of its name (the theorem's second conclusion); (2) the conflict clause
+   (Spec.ResolveMultiSpec.ConflictFree) on the implementation's list, tags conflict/... *)
+Definition validate_run2 (R : resolver) (world : list string) (dq0 : list pid) (obs : option (list nat)) : list string :=
+  match obs with
+  | None => []
+  | Some l =>
+      let S := List.map (getp R) l in
+      let cw := List.map cook_dep world in
+      let tags := nodup string_dec (closed_check_c (r_pkgs R) (List.map cook_str world) S) in
+      (if envelope_c R cw then List.map (String.append "viol:in-envelope/") tags
+       else if menvelope_c R cw && dq_ok_b R dq0
+       then List.map (String.append "viol:in-multi-envelope/")
+              (tags ++ (if forallb (is_winner R) l then [] else ["member-not-the-winner-of-its-name"]))
+       else List.map (String.append "viol:") tags) ++
+      List.map (String.append "viol:") (nodup string_dec (conflict_check_c S))
+  end.
+
 Definition prepare (c : rcase) : list resolver * list (string * pid) :=
   (List.map (fun au => new_resolver (snd au)) (c_archs c), disqualify_difference (c_archs c)).
 
@@ -64,4 +83,4 @@ Definition check_c02 (c : rcase) : list string :=
   nodup string_dec (flat_map (fun r =>
     let R := nth (u_arch r) Rs empty_resolver in
     if negb (in_range R (u_obs r)) then ["mismatch:harness-pid-out-of-range"] else
-    compare_run R (u_world r) (dq0_of c dqs r) (u_obs r) ++ validate_run R (u_world r) (u_obs r)) (c_runs c)).
+    compare_run R (u_world r) (dq0_of c dqs r) (u_obs r) ++ validate_run2 R (u_world r) (dq0_of c dqs r) (u_obs r)) (c_runs c)).
